@@ -366,6 +366,9 @@ class Stdlib:
                 return r
             if op == '!=':
                 return not r
+        if (isinstance(a, NP.DType) or isinstance(b, NP.DType)) and op in ('==', '!='):
+            r = (a == b) if isinstance(a, NP.DType) else (b == a)
+            return r if op == '==' else not r
         if isinstance(a, str) and isinstance(b, str):
             return {'==': a == b, '!=': a != b, '<': a < b, '<=': a <= b, '>': a > b, '>=': a >= b}[op]
         if isinstance(a, (tuple, list)) and isinstance(b, (tuple, list)) and op in ('==', '!='):
